@@ -51,6 +51,33 @@ class Frames:
                 self.comment.append(h)
 
 
+def law_stateless(chk, lp, rule, file):
+    """Lexing a text does not depend on what was lexed before: every probe of
+    length <= 2 is run again, in the opposite order and after a few texts that
+    end inside a literal, and must give what it gave the first time (a scratch
+    buffer in a default argument, a module-level pool...)."""
+    keys = [k for k in lp._cache if isinstance(k, tuple) and len(k[0]) <= 2]
+    first = {k: lp._cache[k] for k in keys}
+    bad = None
+    primers = [h + lp.other for h in lp.reps][:40]
+    for k in reversed(keys):
+        for pr in primers[:3]:
+            lp._cache.pop((pr, k[1]), None)
+            lp.run(pr, k[1])
+        primers = primers[1:] + primers[:1]
+        lp._cache.pop(k, None)
+        again = lp.run(k[0], k[1])
+        if again != first[k]:
+            bad = bad or (k[0], first[k], again)
+    chk.ob(rule, "tokenise run twice", bad is None,
+           (f"{bad[0]!r} was lexed as {bad[1]} the first time and as {bad[2]} "
+            "after other texts had been lexed: the lexer keeps state between "
+            "calls") if bad else "", file,
+           witness=repr(bad[0]) if bad else None,
+           sample={"probes repeated": len(keys)})
+    return len(keys)
+
+
 def law_total(chk, lp, rule, file):
     chk.ob(rule, "lexer on every probe", not lp.raised,
            "the lexer raises on some input (e.g. "
